@@ -3,7 +3,8 @@
 //! Bounded-exhaustive enumeration. Subject: `rusty_penguin_lib::server::State` called
 //! in-process as a hyper `Service` (pass `inproc`, pass `backend`), and the public
 //! `server::serve_connection` over a loopback TCP connection with literal HTTP/1.1 bytes
-//! (pass `wire`). The oracle is a reference predicate written from the property statement
+//! (pass `wire`), and `server::server_main` started from real `ServerArgs` on a loopback port
+//! (pass `config-path`: the translation of the options into the gate). The oracle is a reference predicate written from the property statement
 //! plus a differential requirement: every non-valid request to `/ws` (and, with obfuscation,
 //! to `/health` and `/version`) must receive exactly the response the same request receives
 //! on an unknown path of the same length.
@@ -1021,19 +1022,14 @@ struct WireOut {
     tunnel_alive: Option<bool>,
 }
 
-async fn wire_call(state: &State, r: &ReqLit) -> WireOut {
+/// Write the literal request on a connected stream and read the response (head, then the body
+/// announced by content-length; after a 101 a masked Ping is sent and the Pong awaited).
+async fn wire_exchange(c: &mut tokio::net::TcpStream, r: &ReqLit) -> WireOut {
     use tokio::io::{AsyncReadExt, AsyncWriteExt};
-    let fut = async {
-        let l = tokio::net::TcpListener::bind("127.0.0.1:0").await.expect("bind");
-        let addr = l.local_addr().expect("addr");
-        let (c, s) = tokio::join!(tokio::net::TcpStream::connect(addr), l.accept());
-        let mut c = c.expect("connect");
-        let (s, peer) = s.expect("accept");
-        let st = state.clone().with_client_addr(Some(peer));
-        let server = tokio::spawn(async move {
-            let _ = catch(rusty_penguin_lib::server::serve_connection(rusty_penguin_lib::tls::MaybeTlsStream::Plain(s), st)).await;
-        });
-        c.write_all(&wire_bytes(r)).await.expect("write request");
+    {
+        if let Err(e) = c.write_all(&wire_bytes(r)).await {
+            return WireOut { out: Out::Err(format!("cannot write the request: {e}")), tunnel_alive: None };
+        }
         // read the head
         let mut buf = Vec::new();
         let mut tmp = [0u8; 2048];
@@ -1047,7 +1043,6 @@ async fn wire_call(state: &State, r: &ReqLit) -> WireOut {
             }
         };
         let Some(head_end) = head_end else {
-            server.abort();
             return WireOut { out: Out::Err(format!("connection closed without a response head ({} bytes)", buf.len())), tunnel_alive: None };
         };
         let head = String::from_utf8_lossy(&buf[..head_end]).to_string();
@@ -1099,9 +1094,25 @@ async fn wire_call(state: &State, r: &ReqLit) -> WireOut {
                 }
             }
         }
+        WireOut { out: Out::Resp { status, headers, body }, tunnel_alive }
+    }
+}
+
+async fn wire_call(state: &State, r: &ReqLit) -> WireOut {
+    let fut = async {
+        let l = tokio::net::TcpListener::bind("127.0.0.1:0").await.expect("bind");
+        let addr = l.local_addr().expect("addr");
+        let (c, s) = tokio::join!(tokio::net::TcpStream::connect(addr), l.accept());
+        let mut c = c.expect("connect");
+        let (s, peer) = s.expect("accept");
+        let st = state.clone().with_client_addr(Some(peer));
+        let server = tokio::spawn(async move {
+            let _ = catch(rusty_penguin_lib::server::serve_connection(rusty_penguin_lib::tls::MaybeTlsStream::Plain(s), st)).await;
+        });
+        let w = wire_exchange(&mut c, r).await;
         drop(c);
         server.abort();
-        WireOut { out: Out::Resp { status, headers, body }, tunnel_alive }
+        w
     };
     match tokio::time::timeout(Duration::from_secs(60), catch(fut)).await {
         Err(_) => WireOut { out: Out::Hang, tunnel_alive: None },
@@ -1216,6 +1227,406 @@ async fn judge_wire(state: &State, cfg: &Cfg, r: &ReqLit, sink: &Sink<'_>) -> Wi
 }
 
 // ---------------------------------------------------------------------------------------
+// Configuration path: the same gate through `server_main` on loopback
+// ---------------------------------------------------------------------------------------
+//
+// The passes above build `State` with its builder methods. The real server derives that `State`
+// from `ServerArgs` inside `server::server_main`; this section starts `server_main` itself on a
+// loopback port for a small matrix of `ServerArgs` and sends literal HTTP/1.1 requests, so that
+// the translation options -> gate is part of what is observed.
+
+const CP_NOT_FOUND: &str = "verif: config-path not-found body #c14";
+const CP_UNKNOWN_PATH: &str = "/zzz-unknown";
+const CP_START_ATTEMPTS: usize = 6;
+const CP_START_DEADLINE: Duration = Duration::from_secs(5);
+
+#[derive(Clone, Debug, PartialEq, Eq)]
+struct CpCfg {
+    /// `--ws-psk`: not given / given / given with an empty value
+    psk: Option<String>,
+    obfs: bool,
+}
+
+impl CpCfg {
+    fn psk_label(&self) -> &'static str {
+        match self.psk.as_deref() {
+            None => "psk-none",
+            Some("") => "psk-empty",
+            Some(_) => "psk-set",
+        }
+    }
+    fn to_json(&self) -> Value {
+        json!({"ws_psk": self.psk, "obfs": self.obfs, "not_found_resp": CP_NOT_FOUND, "backend": null, "tls": false})
+    }
+    fn from_json(v: &Value) -> Self {
+        Self { psk: v["ws_psk"].as_str().map(str::to_string), obfs: v["obfs"].as_bool().expect("replay: obfs") }
+    }
+    fn describe(&self) -> String {
+        format!("server_main with ws_psk {:?}, obfs {}", self.psk, self.obfs)
+    }
+}
+
+fn cp_cfgs() -> Vec<CpCfg> {
+    let mut v = Vec::new();
+    for psk in [None, Some(PSK.to_string()), Some(String::new())] {
+        for obfs in [false, true] {
+            v.push(CpCfg { psk: psk.clone(), obfs });
+        }
+    }
+    v
+}
+
+/// One deviation from the fully valid upgrade request (the path is varied separately).
+#[derive(Clone, Debug, PartialEq, Eq)]
+struct CpVariant {
+    label: String,
+    /// value of the X-Penguin-PSK header; `None`: the header is not sent
+    psk_header: Option<String>,
+    version: String,
+}
+
+impl CpVariant {
+    fn to_json(&self) -> Value {
+        json!({"label": self.label, "x_penguin_psk": self.psk_header, "sec_websocket_version": self.version})
+    }
+    fn from_json(v: &Value) -> Self {
+        Self { label: v["label"].as_str().expect("replay: label").into(), psk_header: v["x_penguin_psk"].as_str().map(str::to_string), version: v["sec_websocket_version"].as_str().expect("replay: version").into() }
+    }
+    fn request(&self, path: &str) -> ReqLit {
+        let mut headers: Vec<(String, String)> = [("connection", "upgrade"), ("upgrade", "websocket"), ("sec-websocket-version", self.version.as_str()), ("sec-websocket-protocol", WANT_PROTOCOL), ("sec-websocket-key", KEY_SAMPLE)]
+            .iter()
+            .map(|(n, v)| ((*n).to_string(), (*v).to_string()))
+            .collect();
+        if let Some(p) = &self.psk_header {
+            headers.push(("x-penguin-psk".into(), p.clone()));
+        }
+        ReqLit { method: "GET".into(), uri: path.into(), headers, on_upgrade: true }
+    }
+}
+
+/// The header variants under `cfg`, named relative to the configured value (with no PSK
+/// configured: relative to the value the other configurations use). Variants that do not exist
+/// (a proper prefix of the empty value) or repeat another literal (empty == equal for the empty
+/// PSK) are left out, so that every variant is a distinct request.
+fn cp_variants(cfg: &CpCfg) -> Vec<CpVariant> {
+    let nominal = cfg.psk.clone().unwrap_or_else(|| PSK.to_string());
+    let mut cand: Vec<(&str, Option<String>)> = vec![("absent", None), ("equal", Some(nominal.clone())), ("empty", Some(String::new())), ("wrong", Some("hunter2".into()))];
+    if !nominal.is_empty() {
+        cand.push(("proper-prefix", Some(nominal[..nominal.len() - 1].to_string())));
+    }
+    cand.push(("extended", Some(format!("{nominal}x"))));
+    let mut seen: HashSet<Option<String>> = HashSet::new();
+    let mut out: Vec<CpVariant> = cand.into_iter().filter(|(_, h)| seen.insert(h.clone())).map(|(l, h)| CpVariant { label: l.into(), psk_header: h, version: "13".into() }).collect();
+    // the gate as a whole is live: everything right (including the PSK) but the version
+    let good = if cfg.psk.is_some() { Some(nominal) } else { None };
+    out.push(CpVariant { label: "sec-websocket-version=12".into(), psk_header: good, version: "12".into() });
+    out
+}
+
+fn cp_paths(cfg: &CpCfg) -> Vec<&'static str> {
+    // without obfuscation /health and /version are not part of this section
+    if cfg.obfs { vec!["/ws", CP_UNKNOWN_PATH, "/health", "/version"] } else { vec!["/ws", CP_UNKNOWN_PATH] }
+}
+
+/// Reference for this section, from the statement: 101 iff GET /ws, the four compared headers
+/// equal (case-insensitively) to the wanted values, a key, and -- when a PSK is configured, be
+/// it empty -- an X-Penguin-PSK header that is present and byte-for-byte equal to it.
+fn cp_must_grant(cfg: &CpCfg, r: &ReqLit) -> bool {
+    let one = |name: &str| -> Option<&str> {
+        let v = r.values(name);
+        if v.len() == 1 { Some(v[0]) } else { None }
+    };
+    let upgrade_headers = one("connection").is_some_and(|v| v.eq_ignore_ascii_case("upgrade"))
+        && one("upgrade").is_some_and(|v| v.eq_ignore_ascii_case("websocket"))
+        && one("sec-websocket-version").is_some_and(|v| v.eq_ignore_ascii_case("13"))
+        && one("sec-websocket-protocol").is_some_and(|v| v.eq_ignore_ascii_case(WANT_PROTOCOL))
+        && one("sec-websocket-key").is_some_and(key_well_formed);
+    let psk_ok = match &cfg.psk {
+        None => true,
+        Some(configured) => one("x-penguin-psk").is_some_and(|presented| presented.as_bytes() == configured.as_bytes()),
+    };
+    r.method == "GET" && r.uri == "/ws" && upgrade_headers && psk_ok
+}
+
+fn cp_replay_json(cfg: &CpCfg, var: &CpVariant, r: &ReqLit) -> Value {
+    json!({"kind": "config-path", "cfg": cfg.to_json(), "psk_config": cfg.psk_label(), "variant": var.to_json(), "request": r.to_json()})
+}
+
+struct CpServer {
+    task: tokio::task::JoinHandle<Result<(), rusty_penguin_lib::server::Error>>,
+    lease: super::c01_env::PortLease,
+}
+
+enum CpStartFail {
+    /// `server_main` ended or panicked by itself for a reason that is not a lost port race
+    Subject(String),
+    /// no port / no listener after all attempts
+    Machinery(String),
+}
+
+/// Start `server_main` with `ServerArgs` made like the crate's own tests make them, on a port
+/// of the harness's pool; retried with another port when the bind race is lost.
+async fn cp_start(cfg: &CpCfg) -> Result<CpServer, CpStartFail> {
+    use rusty_penguin_lib::arg::ServerArgs;
+    use std::time::Instant;
+    let mut last_fail = String::new();
+    'attempts: for _ in 0..CP_START_ATTEMPTS {
+        let lease = super::c01_env::lease_port(false);
+        let args: &'static ServerArgs = leak(ServerArgs {
+            host: vec!["127.0.0.1".to_string()],
+            port: vec![lease.port],
+            not_found_resp: CP_NOT_FOUND.to_string(),
+            ws_psk: cfg.psk.as_deref().map(|p| HeaderValue::from_str(p).expect("psk value")),
+            obfs: cfg.obfs,
+            timeout: penguin_mux::timing::OptionalDuration::from_secs(30),
+            ..Default::default()
+        });
+        let task = tokio::spawn(rusty_penguin_lib::server::server_main(args));
+        let deadline = Instant::now() + CP_START_DEADLINE;
+        loop {
+            // let the server task run up to its accept loop / its failure
+            tokio::time::sleep(Duration::from_millis(2)).await;
+            if task.is_finished() {
+                let text = match task.await {
+                    Ok(Ok(())) => "server_main returned Ok(())".to_string(),
+                    Ok(Err(e)) => format!("server_main returned Err: {e}"),
+                    Err(je) if je.is_panic() => return Err(CpStartFail::Subject(format!("server_main panicked while starting: {}", panic_text(&*je.into_panic())))),
+                    Err(je) => format!("server_main task: {je}"),
+                };
+                if text.contains("os error 98") || text.contains("Address already in use") || text.contains("Address in use") {
+                    last_fail = text; // lost the race for the port: take another one
+                    continue 'attempts;
+                }
+                return Err(CpStartFail::Subject(text));
+            }
+            match tokio::net::TcpStream::connect(("127.0.0.1", lease.port)).await {
+                Ok(probe) => {
+                    drop(probe);
+                    tokio::task::yield_now().await;
+                    if !task.is_finished() {
+                        return Ok(CpServer { task, lease });
+                    }
+                }
+                Err(e) => last_fail = format!("no listener on 127.0.0.1:{} within {CP_START_DEADLINE:?} (last: {e})", lease.port),
+            }
+            if Instant::now() >= deadline {
+                task.abort();
+                continue 'attempts;
+            }
+        }
+    }
+    Err(CpStartFail::Machinery(format!("config-path: server_main could not be started in {CP_START_ATTEMPTS} attempts: {last_fail}")))
+}
+
+async fn cp_call(port: u16, r: &ReqLit) -> WireOut {
+    let fut = async {
+        match tokio::net::TcpStream::connect(("127.0.0.1", port)).await {
+            Ok(mut c) => wire_exchange(&mut c, r).await,
+            Err(e) => WireOut { out: Out::Err(format!("cannot connect to the server: {e}")), tunnel_alive: None },
+        }
+    };
+    match tokio::time::timeout(Duration::from_secs(60), fut).await {
+        Err(_) => WireOut { out: Out::Hang, tunnel_alive: None },
+        Ok(o) => o,
+    }
+}
+
+/// Send one variant on every path of the section to the running server and judge the answers.
+/// Returns (request, observation) per path, `/ws` first.
+async fn cp_judge_variant(port: u16, cfg: &CpCfg, var: &CpVariant, sink: &Sink<'_>) -> Vec<(ReqLit, WireOut)> {
+    let t = sink.tally;
+    let mut obs: Vec<(ReqLit, WireOut)> = Vec::new();
+    for path in cp_paths(cfg) {
+        let r = var.request(path);
+        t.cases.fetch_add(1, Ordering::Relaxed);
+        let w = cp_call(port, &r).await;
+        t.evaluations.fetch_add(1, Ordering::Relaxed);
+        obs.push((r, w));
+    }
+    let what = cfg.describe();
+    let (pl, vl) = (cfg.psk_label(), var.label.as_str());
+    let find = |p: &str| obs.iter().find(|(r, _)| r.uri == p).expect("path was sent");
+    let (unk_r, unk) = find(CP_UNKNOWN_PATH);
+    for (r, w) in &obs {
+        let rj = || cp_replay_json(cfg, var, r);
+        let path = r.uri.as_str();
+        let grant = cp_must_grant(cfg, r);
+        if grant {
+            t.ref_valid.fetch_add(1, Ordering::Relaxed);
+        } else {
+            t.ref_invalid.fetch_add(1, Ordering::Relaxed);
+        }
+        if !matches!(w.out, Out::Resp { .. }) {
+            sink.viol(format!("cfgpath.no-response.{}", path_class(path)), format!("{what}: {} for {}", w.out.brief(), r.to_json()), rj());
+            continue;
+        }
+        let is101 = w.out.status() == Some(101);
+        if is101 {
+            t.seen_101.fetch_add(1, Ordering::Relaxed);
+        }
+        if grant {
+            let stripped = match &w.out {
+                Out::Resp { status, headers, body } => Out::Resp { status: *status, headers: headers.iter().filter(|(n, _)| n != "<status-line>").cloned().collect(), body: body.clone() },
+                o => o.clone(),
+            };
+            if !is101 {
+                sink.viol(format!("cfgpath.upgrade-refused.{pl}.{vl}"), format!("{what}: a fully valid upgrade request (X-Penguin-PSK {:?}) is answered with {} -- {}", var.psk_header, w.out.brief(), r.to_json()), rj());
+            } else if let Err(e) = check_101(&stripped, &[KEY_SAMPLE]) {
+                sink.viol(format!("cfgpath.101-malformed.{e}"), format!("{what}: the 101 response is wrong ({e}): {} -- {}", w.out.brief(), r.to_json()), rj());
+            } else if w.tunnel_alive != Some(true) {
+                sink.viol("cfgpath.101-without-tunnel".into(), format!("{what}: 101 was sent but no WebSocket endpoint answered a Ping on the upgraded connection -- {}", r.to_json()), rj());
+            }
+            continue;
+        }
+        if is101 {
+            let why = if path == "/ws" { format!("{pl}.{vl}") } else { format!("path={}", path_class(path)) };
+            sink.viol(
+                format!("cfgpath.upgrade-granted.{why}"),
+                format!("{what}: 101 although the request is not a valid upgrade request (path {path}, X-Penguin-PSK header {}, Sec-WebSocket-Version {}) -- {}", var.psk_header.as_ref().map_or("absent".to_string(), |h| format!("{h:?}")), var.version, r.to_json()),
+                rj(),
+            );
+            continue;
+        }
+        if path == CP_UNKNOWN_PATH {
+            // "configured 404": also tells that the answer comes from the server started here
+            let ok = matches!(&w.out, Out::Resp { status: 404, body, .. } if body == CP_NOT_FOUND.as_bytes());
+            if !ok {
+                sink.viol("cfgpath.unknown-path.not-the-configured-404".into(), format!("{what}: the unknown path answers {} instead of 404 with the configured body -- {}", w.out.brief(), r.to_json()), rj());
+            }
+            continue;
+        }
+        // a refused /ws (and, with obfuscation, /health and /version): exactly the unknown path's answer
+        if w.out == unk.out {
+            t.seen_fallback_equal.fetch_add(1, Ordering::Relaxed);
+        } else {
+            let key = if path == "/ws" { "cfgpath.refusal-distinguishable" } else { "cfgpath.obfs-distinguishable" };
+            sink.viol(key.into(), format!("{what}: {path} answers {} but the same request on {} answers {} ({}) -- {}", w.out.brief(), unk_r.uri, unk.out.brief(), diff_signature(&w.out, &unk.out), r.to_json()), rj());
+        }
+    }
+    obs
+}
+
+fn cp_stop(srv: CpServer) {
+    srv.task.abort();
+    drop(srv.lease);
+}
+
+/// `server_main` waits for Ctrl-C through tokio, which installs a SIGINT handler for the rest of
+/// the process's life; once the servers are gone nobody listens to it any more. Give SIGINT its
+/// default action back so that the harness can still be interrupted.
+fn cp_restore_sigint() {
+    // SAFETY: plain libc call setting the default disposition; no handler of ours is involved.
+    unsafe {
+        libc::signal(libc::SIGINT, libc::SIG_DFL);
+    }
+}
+
+struct CpStats {
+    servers: u64,
+    requests: u64,
+    sample: Option<Value>,
+    machinery: Option<String>,
+}
+
+/// The whole section: every configuration of `cp_cfgs` x its variants x its paths. The servers
+/// run inside a runtime of this function; dropping it removes every task they left.
+fn run_config_path(sink: &Sink<'_>) -> CpStats {
+    let mut st = CpStats { servers: 0, requests: 0, sample: None, machinery: None };
+    let rt = runtime();
+    rt.block_on(async {
+        for cfg in cp_cfgs() {
+            let srv = match cp_start(&cfg).await {
+                Ok(s) => s,
+                Err(CpStartFail::Subject(text)) => {
+                    let var = &cp_variants(&cfg)[0];
+                    sink.viol("cfgpath.server-did-not-start".into(), format!("{}: {text}", cfg.describe()), cp_replay_json(&cfg, var, &var.request("/ws")));
+                    continue;
+                }
+                Err(CpStartFail::Machinery(text)) => {
+                    st.machinery = Some(text);
+                    break;
+                }
+            };
+            st.servers += 1;
+            let port = srv.lease.port;
+            for var in cp_variants(&cfg) {
+                let obs = cp_judge_variant(port, &cfg, &var, sink).await;
+                st.requests += obs.len() as u64;
+                if st.sample.is_none() && cfg.psk.as_deref() == Some("") && cfg.obfs && var.label == "absent" {
+                    let (r, w) = &obs[0];
+                    st.sample = Some(json!({"transport": "config-path", "cfg": cfg.to_json(), "variant": var.to_json(), "request_bytes": String::from_utf8_lossy(&wire_bytes(r)), "reference_must_grant": cp_must_grant(&cfg, r), "observed": w.out.to_json(),
+                        "observed_on_unknown_path": obs.iter().find(|(r, _)| r.uri == CP_UNKNOWN_PATH).map(|(_, w)| w.out.to_json())}));
+                }
+            }
+            if srv.task.is_finished() && st.machinery.is_none() {
+                let var = &cp_variants(&cfg)[0];
+                let text = match srv.task.await {
+                    Err(je) if je.is_panic() => format!("server_main panicked while serving: {}", panic_text(&*je.into_panic())),
+                    other => format!("server_main ended while serving: {other:?}"),
+                };
+                sink.viol("cfgpath.server-ended".into(), format!("{}: {text}", cfg.describe()), cp_replay_json(&cfg, var, &var.request("/ws")));
+                continue;
+            }
+            cp_stop(srv);
+        }
+    });
+    drop(rt);
+    cp_restore_sigint();
+    st
+}
+
+fn replay_config_path(args: &Args, v: &Value, mut rep: Report) -> Report {
+    let cfg = CpCfg::from_json(&v["cfg"]);
+    let var = CpVariant::from_json(&v["variant"]);
+    let tally = Tally::default();
+    let rep_m = Mutex::new(Report::new("C14", &args.tier, "enum", "exploration"));
+    let sink = Sink { rep: &rep_m, tally: &tally };
+    let mut obs = Vec::new();
+    for _ in 0..2 {
+        // a fresh server (and runtime) per execution
+        let rt = runtime();
+        let o = rt.block_on(async {
+            match cp_start(&cfg).await {
+                Ok(srv) => {
+                    let got = cp_judge_variant(srv.lease.port, &cfg, &var, &sink).await;
+                    cp_stop(srv);
+                    Ok(json!(got.iter().map(|(r, w)| json!({"path": r.uri, "response": w.out.to_json(), "tunnel_alive": w.tunnel_alive})).collect::<Vec<_>>()))
+                }
+                Err(CpStartFail::Subject(text)) => {
+                    sink.viol("cfgpath.server-did-not-start".into(), format!("{}: {text}", cfg.describe()), v.clone());
+                    Ok(json!({"server_did_not_start": text}))
+                }
+                Err(CpStartFail::Machinery(text)) => Err(text),
+            }
+        });
+        drop(rt);
+        match o {
+            Ok(o) => obs.push(o),
+            Err(text) => {
+                rep.machinery_error = Some(text);
+                break;
+            }
+        }
+    }
+    cp_restore_sigint();
+    let inner = rep_m.into_inner().unwrap();
+    for mut vi in inner.violations {
+        vi.count = vi.count.div_ceil(2);
+        rep.violations.push(vi);
+    }
+    if obs.len() == 2 && obs[0] != obs[1] {
+        rep.machinery_error = Some(format!("replay is not deterministic: {} vs {}", obs[0], obs[1]));
+    }
+    rep.evaluations = tally.evaluations.load(Ordering::Relaxed);
+    rep.distinct_nontrivial = 1;
+    rep.rule = "replay of one recorded config-path case: server_main started twice with the recorded ServerArgs on a loopback port, the recorded request variant sent on /ws and on the paths it is compared with; observations must agree".into();
+    rep.extra.insert("replayed".into(), v.clone());
+    rep.extra.insert("reference_must_grant".into(), json!(cp_must_grant(&cfg, &ReqLit::from_json(&v["request"]))));
+    rep.extra.insert("observations".into(), json!(obs));
+    rep
+}
+
+// ---------------------------------------------------------------------------------------
 // Driver
 // ---------------------------------------------------------------------------------------
 
@@ -1238,6 +1649,9 @@ fn self_test() -> Result<(), String> {
 }
 
 fn replay(args: &Args, v: &Value, mut rep: Report) -> Report {
+    if v["kind"] == "config-path" {
+        return replay_config_path(args, v, rep);
+    }
     let cfg = Cfg::from_json(&v["cfg"]);
     let r = ReqLit::from_json(&v["request"]);
     let transport = v["transport"].as_str().unwrap_or("inproc").to_string();
@@ -1400,6 +1814,12 @@ pub fn run(args: &Args) -> Report {
     }
     distinct += (wset.len() * wcfgs.len()) as u64;
 
+    // ---- pass 4: configuration path: the same gate through server_main on loopback
+    let cp_t0 = std::time::Instant::now();
+    let cp = run_config_path(&sink);
+    let cp_wall = cp_t0.elapsed().as_secs_f64();
+    distinct += cp.requests;
+
     let mut rep = rep_m.into_inner().unwrap();
     rep.evaluations = tally.evaluations.load(Ordering::Relaxed);
     rep.distinct_nontrivial = distinct;
@@ -1408,7 +1828,7 @@ pub fn run(args: &Args) -> Report {
     }
     rep.exhaustive = true;
     rep.rule = format!(
-        "pass inproc: every request with at most {k_ext} simultaneous deviations from the fully valid upgrade request over the extended variant tables{} x 4 configurations (PSK configured or not x obfs on/off); pass backend: same construction (smaller bound) with a reachable reflecting backend and with a backend that hangs up without answering; pass wire: literal HTTP/1.1 bytes over loopback TCP through serve_connection. A case is one distinct (configuration, literal request) pair.",
+        "pass inproc: every request with at most {k_ext} simultaneous deviations from the fully valid upgrade request over the extended variant tables{} x 4 configurations (PSK configured or not x obfs on/off); pass backend: same construction (smaller bound) with a reachable reflecting backend and with a backend that hangs up without answering; pass wire: literal HTTP/1.1 bytes over loopback TCP through serve_connection; pass config-path: server::server_main itself started on a loopback port from real ServerArgs (ws_psk not given / given / given but empty x obfs on/off, fixed not_found_resp, no backend, no TLS), literal HTTP/1.1 requests over TCP: the fully valid upgrade request with the X-Penguin-PSK header absent / equal to the configured value / empty / wrong / a proper prefix / extended, and one request with a wrong Sec-WebSocket-Version, each on /ws and /zzz-unknown (with obfs also /health and /version); 101 iff the reference grants, every other answer identical (status, headers but date, body) to the unknown path's. A case is one distinct (configuration, literal request) pair.",
         if thorough { " plus the complete product of the core variants (method 4 x path 6 x 7 variants of each compared header (6 for the version) x key 3 x PSK header 5 x OnUpgrade 2)" } else { " plus at most 3 deviations over the core variants" }
     );
     rep.bounds.insert("dimensions".into(), json!(ds.iter().map(|d| json!({"name": d.name, "variants": d.variants.iter().map(|x| json!({"label": x.label, "literal": x.values, "core": x.core})).collect::<Vec<_>>()})).collect::<Vec<_>>()));
@@ -1420,6 +1840,9 @@ pub fn run(args: &Args) -> Report {
     rep.bounds.insert("backend_echo_configurations".into(), json!(echo_cfgs.len()));
     rep.bounds.insert("backend_down_requests".into(), json!(dset.len()));
     rep.bounds.insert("wire_requests".into(), json!(wset.len()));
+    rep.bounds.insert("config_path_servers".into(), json!(cp.servers));
+    rep.bounds.insert("config_path_requests".into(), json!(cp.requests));
+    rep.bounds.insert("config_path_configurations".into(), json!(cp_cfgs().iter().map(|c| json!({"cfg": c.to_json(), "psk_config": c.psk_label(), "paths": cp_paths(c), "variants": cp_variants(c).iter().map(CpVariant::to_json).collect::<Vec<_>>()})).collect::<Vec<_>>()));
     rep.bounds.insert("configurations".into(), json!(cfgs.iter().map(Cfg::to_json).collect::<Vec<_>>()));
     let g = |a: &AtomicU64| a.load(Ordering::Relaxed);
     rep.extra.insert("reference_valid_cases".into(), json!(g(&tally.ref_valid)));
@@ -1431,9 +1854,13 @@ pub fn run(args: &Args) -> Report {
     rep.extra.insert("undecided_answered_fallback".into(), json!(g(&tally.silent_fallback)));
     rep.extra.insert("backend_answers_seen".into(), json!(g(&tally.backend_reached)));
     rep.extra.insert("backend_flaky_retries".into(), json!(g(&tally.flaky_retries)));
+    rep.extra.insert("config_path_wall_s".into(), json!(cp_wall));
     rep.extra.insert("build_profile".into(), json!(if cfg!(debug_assertions) { "checked" } else { "release" }));
     for s in samples.into_inner().unwrap() {
         rep.sample(s);
+    }
+    if let Some(s) = cp.sample {
+        rep.samples.push(s); // (beyond the cap of `Report::sample`: one sample of this pass is always kept)
     }
     rep.assumptions.push("where the statement is silent (duplicate header with one valid and one invalid value, duplicate / empty / malformed Sec-WebSocket-Key, query string on /ws, missing OnUpgrade extension) only totality is demanded: a correct 101 or exactly the unknown-path response".into());
     rep.assumptions.push("the unknown path a request is compared with has the same length as the original path (/zz for /ws), so that length-dependent parts of a backend's answer cannot differ".into());
@@ -1443,6 +1870,11 @@ pub fn run(args: &Args) -> Report {
     // vacuity guard: the domain must contain valid and invalid requests and the backend must have been exercised
     if g(&tally.ref_valid) == 0 || g(&tally.ref_invalid) == 0 || g(&tally.ref_silent) == 0 {
         rep.machinery_error = Some("degenerate domain (no valid, no invalid or no undecided requests)".into());
+    }
+    if let Some(e) = cp.machinery {
+        rep.machinery_error = Some(e);
+    } else if rep.violations.is_empty() && (cp.servers != cp_cfgs().len() as u64 || cp.requests == 0) {
+        rep.machinery_error = Some(format!("degenerate config-path pass: {} servers, {} requests", cp.servers, cp.requests));
     }
     if rep.violations.is_empty() && (g(&tally.seen_101) == 0 || g(&tally.seen_fallback_equal) == 0 || g(&tally.backend_reached) == 0) {
         rep.machinery_error = Some("degenerate run: no 101, no fallback or no backend answer was observed".into());
